@@ -6079,6 +6079,8 @@ class LazyStruct(Construct):
                 offset += sc._actualsize(stream, context, path)
                 stream_seek(stream, offset, 0, path)
             except SizeofError:
+                # measuring may have read a length field before giving up: parse from where the member starts
+                stream_seek(stream, offset, 0, path)
                 parseret = sc._parsereport(stream, context, path)
                 values[i] = parseret
                 if sc.name:
@@ -6208,6 +6210,8 @@ class LazyArray(Subconstruct):
                 offset += sc._actualsize(stream, context, path)
                 stream_seek(stream, offset, 0, path)
             except SizeofError:
+                # measuring may have read a length field before giving up: parse from where the element starts
+                stream_seek(stream, offset, 0, path)
                 parseret = sc._parsereport(stream, context, path)
                 values[i] = parseret
                 offset = stream_tell(stream, path)
